@@ -32,14 +32,13 @@ MANIFEST = dict(
          'the named routines against NumPy on every check.',
     note='Lean kernel + propext/Classical.choice/Quot.sound; model hand-written, fidelity rests on the correspondence run; slicing by in-range '
          '(start,stop) pairs is taken as C05 proves it; float routines (mean/var/stddev/vector_norm) are compared with NumPy under a tolerance, '
-         'var/stddev/trace have no Lean statement; fixed-shape and clipped container kinds are in C09.',
+         'trace has no Lean statement; fixed-shape and clipped container kinds are in C09.',
     technique='Lean 4 induction proofs over List Nat shapes + differential correspondence (exhaustive small scope) + NumPy oracle')
 ASSUMPTIONS = ['apply_slice with in-range pairs 0 <= start < stop <= extent has shape stop-start and reads start+d (C05 domain theorem; observed here through every element of every reduction)',
                'uint32 arithmetic of the order-revealing functor is modelled as Nat mod 2^32',
                'compile-time axes are exercised as meta::ct<k> and tuples of ct on dynamic arrays (rank <= 3); fixed-shape / clipped kinds are covered by the C09 kind matrix, not here']
-PARTIAL = ['var / stddev: no Lean statement (composition mean -> broadcast subtract -> fabs -> square -> sum -> divide by N-ddof needs the C06 broadcasting model); covered by correspondence with NumPy var/std (ddof 0 and 1, every axis subset, keepdims, view and eval) only',
-           'trace: no Lean statement here (sum over the last axis of view::diagonal; the diagonal index map belongs to C04/C16); covered by comparison with numpy.trace for every axis pair and every offset with a non-empty diagonal',
-           'mean_eq_sum_div_count / vector_norm_eq are plumbing statements over abstract element operations (which elements are folded, in which order, divided by their count); the float arithmetic itself is compared with NumPy under a tolerance']
+PARTIAL = ['trace: no Lean statement here (sum over the last axis of view::diagonal; the diagonal index map belongs to C04/C16); covered by comparison with numpy.trace for every axis pair and every offset with a non-empty diagonal',
+           'mean_eq_sum_div_count / var_eq_mean_sq_dev / stddev_eq_sqrt_var / vector_norm_eq are plumbing statements over abstract element operations (which elements are folded, in which order, divided by their count); var takes the broadcast of the keepdims mean against the input as the index map C06 proves; the float arithmetic itself is compared with NumPy under a tolerance']
 TRUSTED = []
 
 
@@ -390,9 +389,9 @@ def gen_float(tier, rng):
                         for ddof in (0, 1):
                             if count - ddof <= 0:
                                 continue
-                            yield Case('var ddof=%d %s' % (ddof, base), 'h_c08f1', model=False, cmp=tol, nontrivial=nt, tags=['var', 'ddof=%d' % ddof] + tg,
+                            yield Case('var ddof=%d %s' % (ddof, base), 'h_c08f1', model=True, cmp=tol, nontrivial=nt, tags=['var', 'ddof=%d' % ddof] + tg,
                                        oracle=fans(np.var(a, axis=ax, ddof=ddof, keepdims=bool(keep))))
-                            yield Case('stddev ddof=%d %s' % (ddof, base), 'h_c08f2', model=False, cmp=tol, nontrivial=nt, tags=['stddev', 'ddof=%d' % ddof] + tg,
+                            yield Case('stddev ddof=%d %s' % (ddof, base), 'h_c08f2', model=True, cmp=tol, nontrivial=nt, tags=['stddev', 'ddof=%d' % ddof] + tg,
                                        oracle=fans(np.std(a, axis=ax, ddof=ddof, keepdims=bool(keep))))
                     for ord_ in (1, 2, 3):
                         axk = 'int' if (axes is not None and len(axes) == 1 and rng.random() < 0.5) else 'vec'
